@@ -220,6 +220,15 @@ theorem inv_step {o : Obs} {s s' : S} {e : Ev} (I : Inv o s) (h : step s e = som
       simp only at hs
       rw [hc.2] at hs; cases hs
     · cases h
+  | wrFatal =>
+    simp only [step] at h
+    split at h
+    · cases h
+      refine ⟨I.now, I.cfg, I.ska, rfl, rfl, by simp [obsStep], ?_, ?_, by simp, by simp, by simp, ?_⟩
+      · intro d hd; cases hd
+      · intro hs; cases hs
+      · intro hh; rcases hh with hh | ⟨x, hh⟩ <;> cases hh
+    · cases h
   | stop =>
     simp only [step] at h; cases h
     refine ⟨I.now, I.cfg, I.ska, I.wri, ?_, by simp [obsStep], ?_, ?_, by simp, by simp, by simp, ?_⟩
@@ -341,6 +350,7 @@ theorem zero_step {o : Obs} {e : Ev} (z : ZeroObs o) (hc : ∀ k, e = .cfg k →
     · exact ⟨h0, hcf, hs⟩
   | wrFail => refine ⟨?_, hcf, hs⟩; simp only [obsStep, Obs.reset]; have : Obs.K { o with writing := false, batchPing := false } = 0 := hK; rw [this, h0]; rfl
   | wrAbort => exact ⟨h0, hcf, hs⟩
+  | wrFatal => exact ⟨h0, hcf, hs⟩
   | stop => exact ⟨h0, hcf, hs⟩
   | eol => exact ⟨h0, hcf, hs⟩
 
